@@ -44,6 +44,14 @@ static std::vector<item<T>> alphabet(int which)   // 0 full, 1 reduced, 2 medium
         bool const usable = var > 0 && kappa * std::numeric_limits<T>::epsilon() < 1e-2L;
         out.push_back({res, false, usable, "(N=" + std::to_string(n) + ",E=" + vf::dec(T(e)) + ",S=" + vf::dec(T(s)) + ")"});
     }
+    // results whose counters say that exactly one call was non-zero (a single hit): positive variance, must contribute
+    for (L e : {-3.0L, 1.0L}) for (L s : {1e-3L, 1.0L})
+    {
+        auto const res = hep::create_result<T>(10, 1, 1, T(e), T(s));
+        L const kappa = 1 + L(res.value()) * L(res.value()) / (9 * L(s) * L(s));
+        bool const usable = res.variance() > T() && kappa * std::numeric_limits<T>::epsilon() < 1e-2L;
+        out.push_back({res, false, usable, "(N=10,hits=1,E=" + vf::dec(T(e)) + ",S=" + vf::dec(T(s)) + ")"});
+    }
     out.push_back({hep::mc_result<T>(10, 0, 0, T(), T()), true, true, "(empty,N=10)"});
     return out;
 }
@@ -197,16 +205,20 @@ template <typename T, template <typename> class Acc>
 static void bins_case(report& r, std::vector<item<T>> const& alpha, std::vector<std::vector<sz>> const& per_result,
     sz ndist, std::string const& id)
 {
-    // per_result[i] = indices (integrated, bin0 of d0, bin1 of d0, bin0 of d1, ...)
+    // per_result[i] = indices (integrated, bins of d0 (2), bins of d1 (2 x 2 = 4, two-dimensional))
     r.eval();
+    auto nbins = [](sz d) { return d == 0 ? sz(2) : sz(4); };
+    auto first = [](sz d) { return d == 0 ? sz(1) : sz(3); };
     std::vector<hep::plain_result<T>> seq;
     for (auto const& pr : per_result)
     {
         std::vector<hep::distribution_result<T>> dists;
         for (sz d = 0; d != ndist; ++d)
         {
-            std::vector<hep::mc_result<T>> bins = {alpha[pr[1 + 2 * d]].res, alpha[pr[2 + 2 * d]].res};
-            dists.emplace_back(hep::make_dist_params<T>(2, T(0), T(1), "d" + std::to_string(d)), bins);
+            std::vector<hep::mc_result<T>> bins;
+            for (sz b = 0; b != nbins(d); ++b) bins.push_back(alpha[pr[first(d) + b]].res);
+            if (d == 0) dists.emplace_back(hep::make_dist_params<T>(2, T(0), T(1), "d0"), bins);
+            else dists.emplace_back(hep::distribution_parameters<T>(2, 2, T(0), T(1), T(0), T(1), "d1"), bins);
         }
         auto const& in = alpha[pr[0]].res;
         seq.emplace_back(dists, in.calls(), in.non_zero_calls(), in.finite_calls(), in.sum(), in.sum_of_squares());
@@ -228,12 +240,13 @@ static void bins_case(report& r, std::vector<item<T>> const& alpha, std::vector<
     }
     for (sz d = 0; d != comb.distributions().size(); ++d)
     {
-        if (comb.distributions()[d].results().size() != 2) { r.violate("bin-wise-combination", id, id + ": bin count changed"); return; }
+        if (comb.distributions()[d].results().size() != nbins(d))
+        { r.violate("bin-wise-combination", id, id + ": distribution " + std::to_string(d) + " has " + std::to_string(comb.distributions()[d].results().size()) + " combined bins, the inputs have " + std::to_string(nbins(d))); return; }
         if (comb.distributions()[d].parameters().name() != "d" + std::to_string(d)) r.violate("bin-wise-combination", id, id + ": parameters not carried over");
-        for (sz b = 0; b != 2; ++b)
+        for (sz b = 0; b != nbins(d); ++b)
         {
             col.clear();
-            for (auto const& pr : per_result) col.push_back(alpha[pr[1 + 2 * d + b]].res);
+            for (auto const& pr : per_result) col.push_back(alpha[pr[first(d) + b]].res);
             if (!same(comb.distributions()[d].results()[b], hep::accumulate<Acc>(col.begin(), col.end())))
                 r.violate("bin-wise-combination", id, id + ": distribution " + std::to_string(d) + " bin " + std::to_string(b)
                     + " differs from combining that bin's results alone");
@@ -255,7 +268,7 @@ static void distributions(report& r)
     {
         std::vector<std::vector<sz>> per_result(len);
         for (sz i = 0; i != len; ++i)
-            for (sz k = 0; k != 1 + 2 * ndist; ++k)
+            for (sz k = 0; k != 1 + (ndist >= 1 ? 2 : 0) + (ndist >= 2 ? 4 : 0); ++k)
                 per_result[i].push_back((start + stride * (i * 5 + k * 3)) % n);
         bool usable = true;
         for (auto const& pr : per_result) for (sz k : pr) usable &= alpha[k].usable;
